@@ -253,12 +253,13 @@ def jsDecodeEmbedded (s : List Char) : Option (List TUnit) :=
 
 /-! ### Embedding in HTML -/
 
-def lowerAscii (c : Char) : Char := if 65 ≤ c.toNat ∧ c.toNat ≤ 90 then Char.ofNat (c.toNat + 32) else c
+/-- `c` is the (lower-case or non-letter) pattern character `p`, or its ASCII upper-case form -/
+def eqCI (p c : Char) : Bool := c = p || (65 ≤ c.toNat && c.toNat ≤ 90 && c.toNat + 32 = p.toNat)
 
 def startsWithCI : List Char → List Char → Bool
   | [], _ => true
   | _ :: _, [] => false
-  | p :: ps, c :: cs => lowerAscii c == p && startsWithCI ps cs
+  | p :: ps, c :: cs => eqCI p c && startsWithCI ps cs
 
 /-- does `pat` (lower case) occur in `s`, ASCII case-insensitively? -/
 def hasInfixCI (pat : List Char) : List Char → Bool
